@@ -911,6 +911,18 @@ class Convert(OpSpec):
                 tv = (tsa or ta)["meta"].get(_CREATOR[tg])
                 if not eqv(tv, sv):
                     out.fail("C08", "I3.convert.meta", f"{cname}: {what}creator {tv!r} != source {sv!r}")
+            if sg == "o2j" and tg in _DIFF and src_set is not None and not cname.endswith(".merge"):
+                # an O2Jam chart's difficulty name is its level number in the set header: the i-th target chart is named after
+                # the i-th level (the wording around the number is the converter's own)
+                import re as _re
+
+                lv = (src_set["meta"].get("level") or [])
+                if i < len(lv) and isinstance(lv[i], (int, float)) and lv[i] is not NAN:
+                    tv = _sjis(ta["meta"].get(_DIFF[tg]))
+                    toks = _re.findall(r"-?\d+", tv if isinstance(tv, str) else "")
+                    if str(int(lv[i])) not in toks:
+                        out.fail("C08", "I3.convert.meta", f"{cname}: {what}difficulty name {tv!r} does not carry the source level {int(lv[i])} "
+                                                           f"(levels of the set: {list(lv)[:3]})")
             if sg in _DIFF and tg in _DIFF:
                 sv = _sjis(sa_["meta"].get(_DIFF[sg]))
                 tv = _sjis(ta["meta"].get(_DIFF[tg]))
